@@ -19,7 +19,7 @@ func init() {
 		ID:    "C18",
 		Level: "fault_enumeration",
 		Rule: "reader: generated streams x every byte offset (all offsets for small streams, strided + random for larger) as the point where the reader fails with a sentinel error after a partial read (the error on the following Read, or together with the last bytes delivered), " +
-			"x reader kinds {seekable, plain, bufio} x {explicit, auto} x {NextPacket, NextData}; seeker: the Seek call of packet-size detection or of Rewind (after 0..5 calls) fails: no panic, no silent loss when no error is surfaced, a later Rewind with a working Seek restarts like a fresh Demuxer; writer: Muxer histories (WriteTables / WriteData ending in packets with 0, 1, 2, many stuffing bytes / WritePacket) " +
+			"x reader kinds {seekable, plain, bufio} x {explicit, auto} x {NextPacket, NextData}; seeker: the Seek call of packet-size detection or of Rewind (after 0..5 calls) fails: no panic, no silent loss when no error is surfaced, a later Rewind with a working Seek restarts like a fresh Demuxer; the reader failing during a second pass, after the stream was read to its end and rewound; writer: Muxer histories (WriteTables / WriteData ending in packets with 0, 1, 2, many stuffing bytes / WritePacket) " +
 			"re-run with the k-th Write call failing, for every k of the fault-free run, permanently and once, accepting 0 or a partial count; the same over sessions holding one unit of 47 091 bytes .. 1 MiB (stage writer-big); distinct = (stream or history, fault position, mode); " +
 			"non-trivial = the fault was actually injected during an API call",
 		Assumptions: []string{"for a bufio.Reader the pending call is the first call that returns an error (bufio delays the failure)", "after the first surfaced error the run stops: later behaviour is not part of the property"},
@@ -27,6 +27,7 @@ func init() {
 		Run:         runC18,
 		Guards: func(m *mon.Merged, tier string) []string {
 			var out []string
+			need(m, &out, "reader_faults_in_a_second_pass", 300)
 			need(m, &out, "reader_faults_injected", 20000)
 			need(m, &out, "reader_faults_delivered_with_data", 10000)
 			need(m, &out, "writer_faults_injected", 20000)
@@ -150,6 +151,7 @@ func runC18(c *mon.Ctx) {
 		s := m.Build(r)
 		for _, api := range []string{"packet", "data"} {
 			seekFaults(c, i, r, s, api)
+			secondPassFault(c, i, r, s, api)
 		}
 	}
 	// ---- writer ----
@@ -263,6 +265,91 @@ func readerFault1(c *mon.Ctx, idx int64, input []byte, cfg DemuxCfg, base []Item
 		return
 	}
 	c.Violate("C18/reader/fault-never-surfaced:"+cls+":"+region, "reader", idx, fmt.Sprintf("reader failed at offset %d but no call returned an error", f), data)
+}
+
+// secondPassFault (stage seeker): the stream is read to its end, the Demuxer is rewound, and the reader fails during the second pass: the pending
+// call returns an error wrapping the cause (never ErrNoMorePackets - that the end was reached once says nothing about this pass) and
+// what was delivered before is a prefix of the fault-free output.
+func secondPassFault(c *mon.Ctx, idx int64, r *rand.Rand, s *gen.Stream, api string) {
+	for _, ps := range []int{188, 0} {
+		cfg := DemuxCfg{Reader: "seek", API: api, PacketSize: ps}
+		fresh := RunDemux(s.Bytes, cfg)
+		if fresh.Panic != "" || fresh.EOFAt < 0 {
+			continue
+		}
+		dmx, tap := NewDemuxerFor(s.Bytes, cfg)
+		data := map[string]any{"config": cfg.String(), "stream": mon.Hex(s.Bytes, 1200)}
+		next := func() (Item, string) {
+			var it Item
+			if p, v, st := mon.Guarded(func() {
+				if api == "packet" {
+					it.Packet, it.Err = dmx.NextPacket()
+				} else {
+					it.Data, it.Err = dmx.NextData()
+				}
+			}); p {
+				return it, fmt.Sprintf("%v\n%s", v, st)
+			}
+			return it, ""
+		}
+		ended := false
+		for j := 0; j < len(s.Bytes)+64 && !ended; j++ {
+			it, pn := next()
+			if pn != "" {
+				c.Violate("C18/reader/panic:second-pass", "seeker", idx, pn, data)
+				return
+			}
+			ended = it.Err == astits.ErrNoMorePackets
+		}
+		if !ended {
+			continue
+		}
+		if _, err := dmx.Rewind(); err != nil {
+			continue
+		}
+		f := 1 + r.IntN(len(s.Bytes)-1)
+		if ps == 0 && f < 193 {
+			f += 193 // past the detection window, whose Seek is another matter (stage seeker)
+			if f >= len(s.Bytes) {
+				continue
+			}
+		}
+		tap.FailAt, tap.FailOnce, tap.FailWithData = f, false, r.IntN(2) == 0
+		data["fail_at"] = f
+		cls := sizeCls(ps) + "/" + api
+		c.Count("reader_faults_in_a_second_pass")
+		c.Case(mon.HashStr("sp", fmt.Sprint(idx, api, ps, f)), true)
+		var got []Item
+		surfaced := false
+		for j := 0; j < len(s.Bytes)+64; j++ {
+			it, pn := next()
+			if pn != "" {
+				c.Violate("C18/reader/panic:second-pass", "seeker", idx, pn, data)
+				return
+			}
+			if it.Err == nil {
+				got = append(got, it)
+				continue
+			}
+			surfaced = true
+			switch {
+			case errors.Is(it.Err, astits.ErrNoMorePackets) && !errors.Is(it.Err, mon.ErrInjected):
+				c.Violate("C18/reader/failure-reported-as-end-of-stream:second-pass:"+cls, "seeker", idx, fmt.Sprintf("after a full pass and a Rewind the reader failed at offset %d, the call returned ErrNoMorePackets", f), data)
+			case !errors.Is(it.Err, mon.ErrInjected):
+				c.Violate("C18/reader/error-does-not-wrap-cause:second-pass:"+cls, "seeker", idx, fmt.Sprintf("reader failed at offset %d; first error: %v", f, it.Err), data)
+			case len(got) > len(fresh.Items):
+				c.Violate("C18/reader/more-results-than-fault-free:second-pass:"+cls, "seeker", idx, fmt.Sprintf("%d vs %d", len(got), len(fresh.Items)), data)
+			default:
+				if d := itemsEqual(got, fresh.Items[:len(got)]); d != "" {
+					c.Violate("C18/reader/results-not-a-prefix:second-pass:"+cls, "seeker", idx, d, data)
+				}
+			}
+			break
+		}
+		if !surfaced {
+			c.Violate("C18/reader/fault-never-surfaced:second-pass:"+cls, "seeker", idx, fmt.Sprintf("reader failed at offset %d but no call returned an error", f), data)
+		}
+	}
 }
 
 // seekFaults: the reader's Seek fails. No property states what must happen then, so the verdicts are only the consequences the
